@@ -38,3 +38,20 @@ package otlptracehttp
 //@   overflow assumed
 //@   unchecked frame,no-panic net/http, protobuf and io are outside the contracts
 //@   assert@call newResponseError#2+ : resp != nil && (resp.StatusCode == 429 || resp.StatusCode == 502 || resp.StatusCode == 503 || resp.StatusCode == 504)
+
+// Stop: EVERY call - also one made with a context that is already done - goes through stopOnce.Do, which closes stopCh and so
+// cancels every export that is waiting to retry (contextWithStop); the context's state only decides the error reported. The
+// once-body does nothing but close that channel.
+//@ ghost var stopOnceCalls int
+//@ func (d *client) Stop(ctx context.Context) (err error)
+//@   prop C14
+//@   unchecked frame,no-panic channel close inside the sync.Once body
+//@   requires d != nil && ctx != nil
+//@   modifies ghost stopOnceCalls
+//@   ghost@entry : stopOnceCalls = 0
+//@   ghost@call Once.Do#* : stopOnceCalls = stopOnceCalls + 1
+//@   assert@return#* : stopOnceCalls == 1
+//@ func (d *client) Stop$1()
+//@   prop C14
+//@   unchecked frame,no-panic channel close
+//@   assert@call close#1 : $arg0 == d.stopCh
